@@ -782,4 +782,601 @@ theorem percentEncode_hDec {name : Bytes} {port : Option Bytes} (ok : HostOK nam
     have : encB cColon = sPct3A := by decide
     rw [this]
 
+theorem seh_name {c : Nat} (h : isNameChar c = true ∨ c = cColon) : shouldEscapeHost c = false := by
+  rcases h with h | rfl
+  · simp only [isNameChar, Bool.or_eq_true, decide_eq_true_eq] at h
+    rcases h with ((h | h) | h) | h
+    · simp [shouldEscapeHost, h]
+    · subst h; decide
+    · subst h; decide
+    · subst h; decide
+  · decide
+
+theorem hostCheck_ok : ∀ s : Bytes, (∀ c ∈ s, c ≠ 37 ∧ shouldEscapeHost c = false) → hostCheck s = true := by
+  intro s
+  induction s using hostCheck.induct with
+  | case1 => intro _; simp [hostCheck]
+  | case2 a b rest ih => intro h; exact absurd rfl (h 37 (by simp)).1
+  | case3 t hn => intro h; exact absurd rfl (h 37 (by simp)).1
+  | case4 c rest h1 h2 ih =>
+    intro h
+    rw [hostCheck]
+    · simp [(h c (by simp)).2, ih (fun c hc => h c (by simp [hc]))]
+    · exact h1
+    · exact h2
+
+theorem hasPrefix_single_ne {k x : Nat} (rest : Bytes) (h : k ≠ x) : hasPrefix [k] (x :: rest) = false := by
+  simp [hasPrefix, List.isPrefixOf, h]
+
+theorem hDec_head {name : Bytes} {port : Option Bytes} (ok : HostOK name port) :
+    ∃ x rest, hDec name port = x :: rest ∧ isNameChar x = true := by
+  cases hn : name with
+  | nil => exact absurd hn ok.ne
+  | cons x xs =>
+    refine ⟨x, (hDec (x :: xs) port).tail, ?_, ok.nm x (by simp [hn])⟩
+    simp [hDec]
+
+theorem colon_notin_name {name : Bytes} (h : ∀ c ∈ name, isNameChar c = true) (k : Nat)
+    (hk : k = 58 ∨ k = 64 ∨ k = 47 ∨ k = 63 ∨ k = 91) : k ∉ name := by
+  intro hm; have := nameChar_props (h k hm); omega
+
+theorem parseAuthority_hDec {name : Bytes} {port : Option Bytes} (ok : HostOK name port) :
+    parseAuthority (hDec name port) = .ok (false, hDec name port) := by
+  have hch := hDec_chars ok
+  have hat : cAt ∉ hDec name port := by
+    intro hm; rcases hch _ hm with h | h
+    · have := nameChar_props h; simp [cAt] at this
+    · simp [cAt, cColon] at h
+  have hun : unescapeHost (hDec name port) = .ok (hDec name port) := by
+    unfold unescapeHost
+    have hnp : ∀ c ∈ hDec name port, c ≠ 37 := by
+      intro c hc; rcases hch c hc with h | h
+      · have := nameChar_props h; omega
+      · subst h; decide
+    rw [hostCheck_ok _ (fun c hc => ⟨hnp c hc, seh_name (hch c hc)⟩), unescapeAll_noPct _ hnp]; rfl
+  have hph : parseHost (hDec name port) = .ok (hDec name port) := by
+    obtain ⟨x, rest, hx, hxn⟩ := hDec_head ok
+    unfold parseHost
+    have hpre : hasPrefix [cLB] (hDec name port) = false := by
+      rw [hx]; have := nameChar_props hxn; exact hasPrefix_single_ne _ (by simp only [cLB]; omega)
+    rw [hpre]; simp only [Bool.false_eq_true, if_false]
+    cases port with
+    | none =>
+      have : afterLast cColon (hDec name none) = none :=
+        afterLast_notin _ _ (by simp only [hDec, List.append_nil]; exact colon_notin_name ok.nm _ (Or.inl rfl))
+      rw [this]; exact hun
+    | some p =>
+      have hp : cColon ∉ p := by
+        intro hm; have := nameChar_props (digit_props (ok.dg p rfl _ hm)); simp [cColon] at this
+      have : afterLast cColon (hDec name (some p)) = some p := by simp only [hDec]; exact afterLast_append _ _ _ hp
+      rw [this]
+      have : p.all isDigit = true := List.all_eq_true.mpr (ok.dg p rfl)
+      simp only [this, Bool.not_true, Bool.false_eq_true, if_false]; exact hun
+  unfold parseAuthority
+  rw [afterLast_notin _ _ hat, hph]; rfl
+
+theorem find_special_name : ∀ name : Bytes, (∀ c ∈ name, isNameChar c = true) →
+    name.find? (fun c => c = cDot || c = cColon || c = cPct) = none ∨
+    name.find? (fun c => c = cDot || c = cColon || c = cPct) = some 46
+  | [], _ => by simp
+  | x :: xs, h => by
+    have hx := nameChar_props (h x (by simp))
+    by_cases h46 : x = 46
+    · right; subst h46; simp [cDot]
+    · have h58 : x ≠ 58 := by omega
+      have h37 : x ≠ 37 := by omega
+      have : (decide (x = cDot) || decide (x = cColon) || decide (x = cPct)) = false := by
+        simp [cDot, cColon, cPct, h46, h58, h37]
+      rw [List.find?_cons, this]
+      exact find_special_name xs (fun c hc => h c (by simp [hc]))
+
+theorem hostname_hDec {name : Bytes} {port : Option Bytes} (ok : HostOK name port) :
+    hostname (hDec name port) = name ∧ isIP name = false := by
+  constructor
+  · obtain ⟨x, rest, hx, hxn⟩ : ∃ x rest, name = x :: rest ∧ isNameChar x = true := by
+      cases hn : name with
+      | nil => exact absurd hn ok.ne
+      | cons x xs => exact ⟨x, xs, rfl, ok.nm x (by simp [hn])⟩
+    have hpre : hasPrefix [cLB] name = false := by
+      rw [hx]; have := nameChar_props hxn; exact hasPrefix_single_ne _ (by simp only [cLB]; omega)
+    unfold hostname
+    cases port with
+    | none =>
+      have : afterLast cColon (hDec name none) = none :=
+        afterLast_notin _ _ (by simp only [hDec, List.append_nil]; exact colon_notin_name ok.nm _ (Or.inl rfl))
+      rw [this]; simp [hDec, hpre]
+    | some p =>
+      have hp : cColon ∉ p := by
+        intro hm; have := nameChar_props (digit_props (ok.dg p rfl _ hm)); simp [cColon] at this
+      have h1 : afterLast cColon (hDec name (some p)) = some p := by simp only [hDec]; exact afterLast_append _ _ _ hp
+      have h2 : beforeLast cColon (hDec name (some p)) = name := by
+        simp only [hDec]; exact beforeLast_append _ _ _ (colon_notin_name ok.nm _ (Or.inl rfl)) hp
+      have h3 : p.all isDigit = true := List.all_eq_true.mpr (ok.dg p rfl)
+      rw [h1]; simp [h2, h3, hpre]
+  · unfold isIP
+    rcases find_special_name name ok.nm with h | h
+    · rw [h]
+    · rw [h]; exact ok.notIP
+
+/-! ### the path segments of a well-formed identifier -/
+
+def SegsOK (segs : List Bytes) : Prop := ∀ s ∈ segs, s ≠ [] ∧ wfSeg set14 s = true
+def P0 (segs : List Bytes) : Bytes := segs.flatMap fun s => cSlash :: s
+def PD (segs : List Bytes) : Bytes := segs.flatMap fun s => cSlash :: percentDecode set14 s
+
+theorem upperHex_name {c : Nat} (h : isUpperHex c = true) : isNameChar c = true := by
+  simp only [isUpperHex, isDigit, Bool.or_eq_true, Bool.and_eq_true, decide_eq_true_eq] at h
+  simp only [isNameChar, isAlnum, isDigit, isUpper, isLower, Bool.or_eq_true, Bool.and_eq_true, decide_eq_true_eq]
+  omega
+
+theorem wfSeg_chars (s : Bytes) : wfSeg set14 s = true → ∀ c ∈ s, isNameChar c = true ∨ c = 37 := by
+  induction s using wfSeg.induct with
+  | case1 => intro _ c hc; simp at hc
+  | case2 a b rest ih =>
+    intro h c hc
+    simp only [wfSeg, Bool.and_eq_true] at h
+    simp only [List.mem_cons] at hc
+    rcases hc with rfl | rfl | rfl | hc
+    · right; rfl
+    · left; exact upperHex_name h.1.1.1
+    · left; exact upperHex_name h.1.1.2
+    · exact ih h.2 c hc
+  | case3 c' rest hne ih =>
+    intro h c hc
+    rw [wfSeg] at h
+    · simp only [Bool.and_eq_true] at h
+      simp only [List.mem_cons] at hc
+      rcases hc with rfl | hc
+      · left; exact h.1
+      · exact ih h.2 c hc
+    · exact hne
+
+theorem wfSeg_notin (s : Bytes) (h : wfSeg set14 s = true) (k : Nat) (hk : k = 58 ∨ k = 47) : k ∉ s := by
+  intro hm
+  rcases wfSeg_chars s h k hm with h1 | h1
+  · have := nameChar_props h1; omega
+  · omega
+
+theorem map_colonToSlash_id : ∀ s : Bytes, cColon ∉ s → s.map colonToSlash = s
+  | [], _ => rfl
+  | x :: xs, h => by
+    simp only [List.mem_cons, not_or] at h
+    simp [colonToSlash, Ne.symm h.1, map_colonToSlash_id xs h.2]
+
+theorem map_join (s : Bytes) (ss : List Bytes) (h : SegsOK (s :: ss)) :
+    cSlash :: (joinWith cColon (s :: ss)).map colonToSlash = P0 (s :: ss) := by
+  induction ss generalizing s with
+  | nil =>
+    simp only [joinWith, P0, List.flatMap_cons, List.flatMap_nil, List.append_nil]
+    rw [map_colonToSlash_id s (wfSeg_notin s (h s (by simp)).2 _ (Or.inl rfl))]
+  | cons t ts ih =>
+    have hs := wfSeg_notin s (h s (by simp)).2 _ (Or.inl rfl)
+    have := ih t (fun x hx => h x (by simp [hx]))
+    rw [joinWith_cons_cons, List.map_append, map_colonToSlash_id s hs, List.map_cons]
+    simp only [P0, List.flatMap_cons] at this ⊢
+    have e : colonToSlash cColon = cSlash := by decide
+    rw [e, this]; simp
+
+theorem didPath_join (h : Bytes) (segs : List Bytes) (hh : cColon ∉ h) (hs : SegsOK segs) :
+    didPath (joinWith cColon (h :: segs)) = P0 segs ∧
+    ((cut cColon (joinWith cColon (h :: segs))).2.isSome = !segs.isEmpty) ∧
+    (cut cColon (joinWith cColon (h :: segs))).1 = h := by
+  cases segs with
+  | nil => simp [joinWith, didPath, cut_notin _ _ hh, P0]
+  | cons s ss =>
+    rw [joinWith_cons_cons]
+    unfold didPath
+    rw [cut_append _ _ _ hh]
+    exact ⟨map_join s ss hs, by simp, rfl⟩
+
+theorem pd_P0 : ∀ segs : List Bytes, SegsOK segs → percentDecode set14 (P0 segs) = PD segs
+  | [], _ => by simp [P0, PD, percentDecode, percentDecodeAux]
+  | s :: ss, h => by
+    have ih := pd_P0 ss (fun x hx => h x (by simp [hx]))
+    simp only [P0, PD, List.flatMap_cons] at ih ⊢
+    rw [List.cons_append, pd_plain _ _ _ (by decide), pd_append_wf _ _ _ (h s (by simp)).2, ih]; rfl
+
+/-- P0 / PD end in a character that is not '/' -/
+theorem P_last (f : Bytes → Bytes) (hf : ∀ s, s ≠ [] ∧ wfSeg set14 s = true → f s ≠ [] ∧ cSlash ∉ f s) :
+    ∀ segs : List Bytes, segs ≠ [] → SegsOK segs →
+    ∃ init z, (segs.flatMap fun s => cSlash :: f s) = init ++ [z] ∧ z ≠ cSlash
+  | [], h, _ => absurd rfl h
+  | [s], _, hs => by
+    obtain ⟨hne, hsl⟩ := hf s (hs s (by simp))
+    refine ⟨cSlash :: (f s).dropLast, (f s).getLast hne, ?_, ?_⟩
+    · simp only [List.flatMap_cons, List.flatMap_nil, List.append_nil, List.cons_append]; rw [List.dropLast_concat_getLast hne]
+    · intro e; exact hsl (e ▸ List.getLast_mem hne)
+  | s :: t :: ts, _, hs => by
+    obtain ⟨init, z, he, hz⟩ := P_last f hf (t :: ts) (by simp) (fun x hx => hs x (by simp [hx]))
+    refine ⟨cSlash :: f s ++ init, z, ?_, hz⟩
+    rw [List.flatMap_cons, he]; simp
+
+theorem hasSuffix_single_ne (init : Bytes) {z c : Nat} (h : z ≠ c) : hasSuffix [c] (init ++ [z]) = false := by
+  simp [hasSuffix, List.isSuffixOf, List.isPrefixOf, Ne.symm h]
+
+theorem hasDouble_P0 : ∀ segs : List Bytes, SegsOK segs → hasDouble cSlash (P0 segs) = false
+  | [], _ => by simp [P0, hasDouble]
+  | s :: ss, h => by
+    have ih := hasDouble_P0 ss (fun x hx => h x (by simp [hx]))
+    obtain ⟨hne, hw⟩ := h s (by simp)
+    have hsl : cSlash ∉ s := wfSeg_notin s hw _ (Or.inr rfl)
+    cases s with
+    | nil => exact absurd rfl hne
+    | cons x xs =>
+      simp only [List.mem_cons, not_or] at hsl
+      simp only [P0, List.flatMap_cons, List.cons_append] at ih ⊢
+      have := hasDouble_append_notin cSlash (x :: xs) (P0 ss) (by simp only [List.mem_cons, not_or]; exact hsl)
+      simp only [P0, List.cons_append] at this
+      simp [hasDouble, Ne.symm hsl.1, this, ih]
+
+/-! ### url.Parse on a clean host and path -/
+
+theorem hasSuffix_mem {c : Nat} {l : Bytes} (h : hasSuffix [c] l = true) : c ∈ l :=
+  (List.isSuffixOf_iff_suffix.mp h).subset (by simp)
+
+theorem any_false_of {l : Bytes} {p : Nat → Bool} (h : ∀ c ∈ l, p c = false) : l.any p = false := by
+  induction l with
+  | nil => rfl
+  | cons x xs ih => simp [h x (by simp), ih (fun c hc => h c (by simp [hc]))]
+
+/-- `url.Parse("https://" + H + P)` for a clean host and path -/
+theorem parseURL_clean (H P : Bytes) (hH : parseAuthority H = .ok (false, H))
+    (hHc : ∀ c ∈ H, 33 ≤ c ∧ c ≤ 126 ∧ c ≠ 35 ∧ c ≠ 63 ∧ c ≠ 47)
+    (hPc : ∀ c ∈ P, 33 ≤ c ∧ c ≤ 126 ∧ c ≠ 35 ∧ c ≠ 63 ∧ c ≠ 37)
+    (hPs : P = [] ∨ ∃ t, P = cSlash :: t) :
+    parseURL (sHttpsSS ++ (H ++ P)) =
+      .ok { scheme := sHttps, host := H, path := P, rawPath := if escapePath P = P then [] else P } := by
+  have hX : ∀ c ∈ H ++ P, 33 ≤ c ∧ c ≤ 126 ∧ c ≠ 35 ∧ c ≠ 63 := by
+    intro c hc; rcases List.mem_append.mp hc with h | h
+    · have := hHc c h; omega
+    · have := hPc c h; omega
+  have h35 : cHash ∉ H ++ P := fun hm => by have := hX _ hm; simp [cHash] at this
+  have h63 : cQ ∉ H ++ P := fun hm => by have := hX _ hm; simp [cQ] at this
+  have h47 : cSlash ∉ H := fun hm => by have := hHc _ hm; simp [cSlash] at this
+  unfold parseURL
+  rw [cut_https cHash (by decide), cut_notin _ _ h35]
+  simp only
+  have hnf : parseNoFrag (sHttpsSS ++ (H ++ P)) =
+      .ok { scheme := sHttps, host := H, path := P, rawPath := if escapePath P = P then [] else P } := by
+    unfold parseNoFrag
+    have hctl : hasCTL (sHttpsSS ++ (H ++ P)) = false := by
+      unfold hasCTL
+      apply any_false_of
+      intro c hc
+      rcases List.mem_append.mp hc with h | h
+      · simp only [sHttpsSS, List.mem_cons, List.mem_nil_iff, or_false] at h
+        rcases h with rfl | rfl | rfl | rfl | rfl | rfl | rfl | rfl <;> decide
+      · have := hX c h
+        simp only [Bool.or_eq_false_iff, decide_eq_false_iff_not]; omega
+    have h42 : ¬ (sHttpsSS ++ (H ++ P) = [42]) := by simp [sHttpsSS]
+    rw [hctl]; simp only [Bool.false_eq_true, if_false, h42]
+    rw [getScheme_https]
+    simp only [Res.bind]
+    have hsq : splitQuery (cSlash :: cSlash :: (H ++ P)) = (cSlash :: cSlash :: (H ++ P), false, []) := by
+      unfold splitQuery
+      have hq : cQ ∉ cSlash :: cSlash :: (H ++ P) := by
+        simp only [List.mem_cons, not_or]; exact ⟨by decide, by decide, h63⟩
+      have : hasSuffix [cQ] (cSlash :: cSlash :: (H ++ P)) = false := by
+        cases hs : hasSuffix [cQ] (cSlash :: cSlash :: (H ++ P)) with
+        | false => rfl
+        | true => exact absurd (hasSuffix_mem hs) hq
+      rw [this, cut_notin _ _ hq]; simp
+    rw [hsq]
+    unfold parseHier
+    have e1 : hasPrefix [cSlash] (cSlash :: cSlash :: (H ++ P)) = true := by simp [hasPrefix]
+    have e2 : hasPrefix [cSlash, cSlash] (cSlash :: cSlash :: (H ++ P)) = true := by simp [hasPrefix]
+    have e3 : (sHttps ≠ []) := by decide
+    simp only [e1, e2, e3, Bool.not_true, Bool.false_and, Bool.false_eq_true, if_false, ne_eq, not_false_eq_true,
+      decide_true, Bool.true_or, Bool.and_self, if_true, List.drop_succ_cons, List.drop_zero, lower_https]
+    have hnp : ∀ c ∈ P, c ≠ 37 := fun c hc => (hPc c hc).2.2.2.2
+    have hsp : setPath { scheme := sHttps, hasUser := false, host := H, forceQuery := false, rawQuery := [] } P =
+        .ok { scheme := sHttps, host := H, path := P, rawPath := if escapePath P = P then [] else P } := by
+      unfold setPath pathUnescape
+      rw [validEscapes_noPct P hnp, unescapeAll_noPct P hnp]
+      simp [Res.bind]
+    rcases hPs with rfl | ⟨t, rfl⟩
+    · rw [List.append_nil, cut_notin _ _ h47, hH]
+      simp only [Res.bind]
+      exact hsp
+    · rw [cut_append _ _ _ h47, hH]
+      simp only [Res.bind]
+      exact hsp
+  rw [hnf]; rfl
+
+/-! ### from the URL path back to the segments -/
+
+theorem PD_chars (segs : List Bytes) (hs : SegsOK segs) :
+    ∀ c ∈ PD segs, 33 ≤ c ∧ c ≤ 126 ∧ c ≠ 35 ∧ c ≠ 63 ∧ c ≠ 37 := by
+  intro c hc
+  simp only [PD, List.mem_flatMap, List.mem_cons] at hc
+  obtain ⟨s, hsm, rfl | hc⟩ := hc
+  · decide
+  · rcases pd_chars s (hs s hsm).2 c hc with h | h
+    · have := nameChar_props h; omega
+    · have := set14_props h; omega
+
+theorem PD_shape (segs : List Bytes) : PD segs = [] ∨ ∃ t, PD segs = cSlash :: t := by
+  cases segs with
+  | nil => left; rfl
+  | cons s ss => right; exact ⟨percentDecode set14 s ++ PD ss, by simp [PD]⟩
+
+theorem pd_noslash (s : Bytes) (h : wfSeg set14 s = true) : cSlash ∉ percentDecode set14 s := by
+  intro hm
+  rcases pd_chars s h _ hm with h1 | h1
+  · have := nameChar_props h1; simp [cSlash] at this
+  · have := set14_props h1; simp [cSlash] at this
+
+theorem splitOn_PD_aux : ∀ (ss : List Bytes) (s : Bytes), SegsOK (s :: ss) →
+    splitOn cSlash (percentDecode set14 s ++ PD ss) = percentDecode set14 s :: ss.map (percentDecode set14)
+  | [], s, h => by
+    simp only [PD, List.flatMap_nil, List.append_nil, List.map_nil]
+    exact splitOn_notin _ _ (pd_noslash s (h s (by simp)).2)
+  | t :: ts, s, h => by
+    have ih := splitOn_PD_aux ts t (fun x hx => h x (by simp [hx]))
+    simp only [PD, List.flatMap_cons, List.cons_append, List.map_cons] at ih ⊢
+    rw [splitOn_append _ _ _ (pd_noslash s (h s (by simp)).2), ih]
+
+theorem splitOn_PD (s : Bytes) (ss : List Bytes) (h : SegsOK (s :: ss)) :
+    splitOn cSlash (PD (s :: ss)) = [] :: (s :: ss).map (percentDecode set14) := by
+  have := splitOn_PD_aux ss s h
+  simp only [PD, List.flatMap_cons, List.cons_append] at this ⊢
+  simp [splitOn, this]
+
+theorem prefix_align (c : Nat) : ∀ (a b t q : Bytes), a ++ c :: t = b ++ c :: q → c ∉ a → c ∉ b → a = b
+  | [], [], _, _, _, _, _ => rfl
+  | [], y :: ys, t, q, h, _, hb => by simp at h; exact absurd h.1 (fun e => hb (by simp [e]))
+  | x :: xs, [], t, q, h, ha, _ => by simp at h; exact absurd h.1 (fun e => ha (by simp [e]))
+  | x :: xs, y :: ys, t, q, h, ha, hb => by
+    simp only [List.cons_append, List.cons.injEq] at h
+    simp only [List.mem_cons, not_or] at ha hb
+    rw [h.1, prefix_align c xs ys t q h.2 ha.2 hb.2]
+
+theorem suffix_align (c : Nat) (a b t q : Bytes) (h : t ++ c :: a = q ++ c :: b) (ha : c ∉ a) (hb : c ∉ b) : a = b := by
+  have h' := congrArg List.reverse h
+  simp only [List.reverse_append, List.reverse_cons, List.append_assoc, List.singleton_append] at h'
+  have := prefix_align c a.reverse b.reverse t.reverse q.reverse h' (by simpa using ha) (by simpa using hb)
+  exact List.reverse_inj.mp this
+
+/-- the URL path of a well-formed identifier does not end in "/did.json" -/
+theorem no_didjson_suffix (segs : List Bytes) (hs : SegsOK segs) (hl : segs.getLast? ≠ some sDidJsonSeg) :
+    hasSuffix sDidJson (PD segs) = false := by
+  cases hsuf : hasSuffix sDidJson (PD segs) with
+  | false => rfl
+  | true =>
+    exfalso
+    obtain ⟨t, ht⟩ := List.isSuffixOf_iff_suffix.mp hsuf
+    cases hsegs : segs with
+    | nil => simp [hsegs, PD, sDidJson] at ht
+    | cons s0 ss0 =>
+      have hne : segs ≠ [] := by simp [hsegs]
+      have hdl := List.dropLast_concat_getLast hne
+      have hlast := hs (segs.getLast hne) (List.getLast_mem hne)
+      have hPD : PD segs = PD segs.dropLast ++ cSlash :: percentDecode set14 (segs.getLast hne) := by
+        conv => lhs; rw [← hdl]
+        simp [PD]
+      rw [hPD] at ht
+      have e : sDidJson = cSlash :: sDidJsonSeg := by decide
+      rw [e] at ht
+      have := suffix_align cSlash sDidJsonSeg (percentDecode set14 (segs.getLast hne)) t _ ht (by decide) (pd_noslash _ hlast.2)
+      have h2 : segs.getLast hne = sDidJsonSeg := by
+        rw [← percentEncode_decode _ hlast.2, ← this]; decide
+      exact hl (by rw [List.getLast?_eq_some_getLast hne, h2])
+
+theorem no_wellknown_suffix (segs : List Bytes) (hs : SegsOK segs) (hl : segs.getLast? ≠ some sDidJsonSeg) :
+    hasSuffix (sWellKnown ++ sDidJson) (PD segs) = false := by
+  cases hsuf : hasSuffix (sWellKnown ++ sDidJson) (PD segs) with
+  | false => rfl
+  | true =>
+    have h1 := List.isSuffixOf_iff_suffix.mp hsuf
+    have h2 : sDidJson <:+ PD segs := (List.suffix_append sWellKnown sDidJson).trans h1
+    have := no_didjson_suffix segs hs hl
+    rw [show hasSuffix sDidJson (PD segs) = true from List.isSuffixOf_iff_suffix.mpr h2] at this
+    exact absurd this (by simp)
+
+/-! ### did.ParseDID on well-formed identifiers -/
+
+theorem spanId_idOK : ∀ s : Bytes, idOK s = true → spanId s = (s, []) := by
+  intro s
+  induction s using idOK.induct with
+  | case1 => intro _; simp [spanId]
+  | case2 a b rest ih =>
+    intro h
+    simp only [idOK, Bool.and_eq_true] at h
+    have e : (isHex a && isHex b) = true := by rw [h.1.1, h.1.2]; rfl
+    simp only [spanId, e, if_true, ih h.2]
+  | case3 c rest hne ih =>
+    intro h
+    rw [idOK] at h
+    · simp only [Bool.and_eq_true] at h
+      rw [spanId]
+      · simp only [h.1, if_true, ih h.2]
+      · exact hne
+    · exact hne
+
+theorem idOK_append : ∀ a b : Bytes, idOK a = true → idOK b = true → idOK (a ++ b) = true := by
+  intro a
+  induction a using idOK.induct with
+  | case1 => intro b _ hb; simpa using hb
+  | case2 x y rest ih =>
+    intro b ha hb
+    simp only [idOK, Bool.and_eq_true] at ha
+    simp only [List.cons_append, idOK, Bool.and_eq_true]
+    exact ⟨ha.1, ih b ha.2 hb⟩
+  | case3 c rest hne ih =>
+    intro b ha hb
+    rw [idOK] at ha
+    · simp only [Bool.and_eq_true] at ha
+      have hc : c ≠ 37 := by intro e; subst e; simp [isIdChar, isAlnum, isDigit, isUpper, isLower] at ha
+      simp only [List.cons_append]
+      rw [idOK]
+      · simp [ha.1, ih b ha.2 hb]
+      · intros; simp_all
+    · exact hne
+
+theorem name_idChar {c : Nat} (h : isNameChar c = true) : isIdChar c = true ∧ c ≠ 37 := by
+  have hp := nameChar_props h
+  simp only [isNameChar, Bool.or_eq_true, decide_eq_true_eq] at h
+  simp only [isIdChar, Bool.or_eq_true, decide_eq_true_eq]
+  exact ⟨by rcases h with ((h | h) | h) | h <;> simp [h], by omega⟩
+
+theorem idOK_name : ∀ s : Bytes, (∀ c ∈ s, isNameChar c = true) → idOK s = true
+  | [], _ => by simp [idOK]
+  | x :: xs, h => by
+    have hx := name_idChar (h x (by simp))
+    rw [idOK]
+    · simp [hx.1, idOK_name xs (fun c hc => h c (by simp [hc]))]
+    · intros; simp_all
+
+theorem idOK_seg (s : Bytes) : wfSeg set14 s = true → idOK s = true := by
+  induction s using wfSeg.induct with
+  | case1 => intro _; simp [idOK]
+  | case2 a b rest ih =>
+    intro h
+    simp only [wfSeg, Bool.and_eq_true] at h
+    simp [idOK, upperHex_isHex h.1.1.1, upperHex_isHex h.1.1.2, ih h.2]
+  | case3 c rest hne ih =>
+    intro h
+    rw [wfSeg] at h
+    · simp only [Bool.and_eq_true] at h
+      rw [idOK]
+      · simp [(name_idChar h.1).1, ih h.2]
+      · exact hne
+    · exact hne
+
+theorem idOK_hEnc {name : Bytes} {port : Option Bytes} (ok : HostOK name port) : idOK (hEnc name port) = true := by
+  unfold hEnc
+  apply idOK_append _ _ (idOK_name name ok.nm)
+  cases port with
+  | none => simp [idOK]
+  | some p =>
+    have := idOK_name p (fun c hc => digit_props (ok.dg p rfl c hc))
+    simp [sPct3A, idOK, isHex, isDigit, this]
+
+theorem idOK_join (h : Bytes) (hh : idOK h = true) : ∀ segs : List Bytes, SegsOK segs →
+    idOK (joinWith cColon (h :: segs)) = true
+  | [], _ => by simpa [joinWith] using hh
+  | s :: ss, hs => by
+    rw [joinWith_cons_cons]
+    apply idOK_append _ _ hh
+    have ih := idOK_join s (idOK_seg s (hs s (by simp)).2) ss (fun x hx => hs x (by simp [hx]))
+    have ih' : idOK (joinWith 58 (s :: ss)) = true := ih
+    rw [idOK]
+    · simp [isIdChar, cColon, ih']
+    · intros; simp_all [cColon]
+
+theorem parseDID_web (id : Bytes) (hid : idOK id = true) (hne : id ≠ []) :
+    parseDID (sDidWeb ++ id) = .ok { method := sWeb, id := id } := by
+  unfold parseDID
+  have h1 : hasPrefix sDid (sDidWeb ++ id) = true := by simp [hasPrefix, sDid, sDidWeb, List.isPrefixOf]
+  have h2 : (sDidWeb ++ id).drop 4 = 119 :: 101 :: 98 :: 58 :: id := by simp [sDidWeb]
+  have h3 : (119 :: 101 :: 98 :: 58 :: id).takeWhile (fun c => isDigit c || isLower c) = [119, 101, 98] := by
+    simp [List.takeWhile, isDigit, isLower]
+  simp only [h1, h2, h3, Bool.not_true, Bool.false_eq_true, if_false, List.length_cons, List.length_nil,
+    List.drop_succ_cons, List.drop_zero]
+  rw [spanId_idOK id hid]
+  simp [hne, sWeb]
+
+/-! ### the round trip -/
+
+theorem colon_notin_hEnc {name : Bytes} {port : Option Bytes} (ok : HostOK name port) : cColon ∉ hEnc name port := by
+  intro hm
+  unfold hEnc at hm
+  rcases List.mem_append.mp hm with h | h
+  · exact colon_notin_name ok.nm _ (Or.inl rfl) h
+  · cases port with
+    | none => simp at h
+    | some p =>
+      rcases List.mem_append.mp h with h | h
+      · simp [sPct3A, cColon] at h
+      · have := nameChar_props (digit_props (ok.dg p rfl _ h)); simp [cColon] at this
+
+theorem filter_parts (s : Bytes) (ss : List Bytes) (h : SegsOK (s :: ss)) :
+    (([] : Bytes) :: (s :: ss).map (percentDecode set14)).filter (fun x => decide (x ≠ [])) =
+      (s :: ss).map (percentDecode set14) := by
+  rw [List.filter_cons]
+  simp only [ne_eq, not_true_eq_false, decide_false, Bool.false_eq_true, if_false]
+  apply List.filter_eq_self.mpr
+  intro x hx
+  obtain ⟨y, hy, rfl⟩ := List.mem_map.mp hx
+  simpa using pd_ne_nil y (h y hy).2 (h y hy).1
+
+theorem map_encode_parts (segs : List Bytes) (h : SegsOK segs) :
+    (segs.map (percentDecode set14)).map (percentEncode set14) = segs := by
+  rw [List.map_map]
+  conv => rhs; rw [← List.map_id segs]
+  apply List.map_congr_left
+  intro s hs
+  exact percentEncode_decode s (h s hs).2
+
+/-- **round trip, generative form** -/
+theorem roundtrip_parts (name : Bytes) (port : Option Bytes) (segs : List Bytes) (ok : HostOK name port)
+    (hs : SegsOK segs) (hl : segs.getLast? ≠ some sDidJsonSeg) :
+    ∃ u, didToURL set14 { method := sWeb, id := joinWith cColon (hEnc name port :: segs) } = .ok u ∧
+      urlToDID set14 u = .ok { method := sWeb, id := joinWith cColon (hEnc name port :: segs) } ∧
+      u.scheme = sHttps ∧ u.host = hDec name port ∧ u.path = PD segs := by
+  have hcol := colon_notin_hEnc ok
+  obtain ⟨hdp, hsome, hfst⟩ := didPath_join (hEnc name port) segs hcol hs
+  have hHc : ∀ c ∈ hDec name port, 33 ≤ c ∧ c ≤ 126 ∧ c ≠ 35 ∧ c ≠ 63 ∧ c ≠ 47 := by
+    intro c hc
+    rcases hDec_chars ok c hc with h | h
+    · have := nameChar_props h; omega
+    · subst h; decide
+  have hparse := parseURL_clean (hDec name port) (PD segs) (parseAuthority_hDec ok) hHc (PD_chars segs hs) (PD_shape segs)
+  have hhost := hostname_hDec ok
+  refine ⟨{ scheme := sHttps, host := hDec name port, path := PD segs,
+            rawPath := if escapePath (PD segs) = PD segs then [] else PD segs }, ?_, ?_, rfl, rfl, rfl⟩
+  · -- DIDToURL
+    unfold didToURL
+    simp only [ne_eq, not_true_eq_false, if_false, hdp, hsome, hfst]
+    have hchk : (!segs.isEmpty && (hasSuffix [cSlash] (P0 segs) || hasDouble cSlash (P0 segs))) = false := by
+      cases hseg : segs with
+      | nil => simp
+      | cons s ss =>
+        have hne : segs ≠ [] := by simp [hseg]
+        obtain ⟨init, z, he, hz⟩ := P_last (fun s => s)
+          (fun s h => ⟨h.1, wfSeg_notin s h.2 _ (Or.inr rfl)⟩) segs hne hs
+        have he' : P0 segs = init ++ [z] := he
+        rw [← hseg, he', hasSuffix_single_ne init hz, ← he', hasDouble_P0 segs hs]; simp
+    rw [hchk]
+    simp only [Bool.false_eq_true, if_false]
+    rw [pathUnescape_hEnc ok]
+    simp only
+    rw [pd_P0 segs hs, List.append_assoc, hparse]
+    simp only [hhost.1, hhost.2, not_true_eq_false, if_false, Bool.false_eq_true]
+  · -- URLToDID
+    unfold urlToDID
+    have hpath : (if (if escapePath (PD segs) = PD segs then ([] : Bytes) else PD segs) ≠ [] then
+        (if escapePath (PD segs) = PD segs then [] else PD segs) else PD segs) = PD segs := by
+      by_cases he : escapePath (PD segs) = PD segs
+      · simp [he]
+      · simp only [he, if_false]; split <;> rfl
+    simp only [hpath]
+    have hc1 : cutSuffix (sWellKnown ++ sDidJson) (PD segs) = PD segs := by
+      unfold cutSuffix; rw [no_wellknown_suffix segs hs hl]; simp
+    have hc2 : cutSuffix sDidJson (PD segs) = PD segs := by
+      unfold cutSuffix; rw [no_didjson_suffix segs hs hl]; simp
+    rw [hc1, hc2, percentEncode_hDec ok]
+    have hidne : joinWith cColon (hEnc name port :: segs) ≠ [] := by
+      have hn : hEnc name port ≠ [] := by
+        unfold hEnc; intro e; exact ok.ne (List.append_eq_nil_iff.mp e).1
+      cases segs with
+      | nil => simpa [joinWith] using hn
+      | cons s ss => rw [joinWith_cons_cons]; intro e; exact hn (List.append_eq_nil_iff.mp e).1
+    have hidok := idOK_join _ (idOK_hEnc ok) segs hs
+    cases hseg : segs with
+    | nil =>
+      subst hseg
+      have : ((splitOn cSlash (PD [])).filter (fun x => decide (x ≠ []))).map (percentEncode set14) = [] := by
+        simp [PD, splitOn]
+      simp only [this, if_true, List.append_nil]
+      have := parseDID_web _ hidok hidne
+      simpa [joinWith] using this
+    | cons s ss =>
+      subst hseg
+      rw [splitOn_PD s ss hs, filter_parts s ss hs, map_encode_parts _ hs]
+      simp only [reduceCtorEq, if_false]
+      have := parseDID_web _ hidok hidne
+      rw [joinWith_cons_cons] at this ⊢
+      simpa [List.append_assoc] using this
+
 end Nuts.C18
